@@ -2,6 +2,8 @@ import CLModel.Proofs.Primary
 import CLModel.Gen.DrawSites
 import Mathlib.Data.ZMod.Basic
 import CLModel.Model.Issuance
+import CLModel.Proofs.ZnRefine
+import CLModel.Proofs.OpsRelIssuance
 import Mathlib.Data.Nat.Bitwise
 import Mathlib.Tactic.Linarith
 import CLModel.Proofs.WitnessSig
@@ -108,5 +110,60 @@ theorem issued_revocation_signature_accepted (k : RevKey F) (x sk γ : F) (L i :
   linear_combination (k.g * k.gDash) * C09.valid_passes_check γ L i hi V hV
 
 end revocation
+
+
+section executable
+
+/-- **the issued signature passes the holder's check in the executable group**:
+`issued_signature_valid` transferred along `Zn.znOps_refines_sub`.  `S` is any subgroup of the
+units modulo `N` that contains the key's generators (for an honest key: the quadratic residues)
+and on which `e·e⁻¹` acts as the identity (what the issuer's `e⁻¹ mod p'q'` guarantees there);
+issuer and holder both compute with integers modulo `N` — the pair `(A, Q)` the model issuer
+returns makes the model holder's recomputation `Q' == A^e` come out `true`. -/
+theorem issued_signature_valid_executable (N : ℕ) (hN : 1 < N) (S : AddSubgroup (Zn.U N))
+    (pk : PubKey ℤ) (pk' : PubKey S) (hpk : PKRel (Zn.RelS N S) pk pk')
+    (knownKeys hiddenKeys : List String)
+    (rf : String → S) (val : String → ℤ) (m2 vPrime vpp e einv : ℤ)
+    (hr : Maps pk'.r (knownKeys ++ hiddenKeys) rf)
+    (hinv : ∀ x : S, (e * einv) • x = x) :
+    let known : Values := knownKeys.map fun k => (k, val k)
+    let hidden : Values := hiddenKeys.map fun k => (k, val k)
+    ∃ u a q, blindU (Zn.znOps N) pk hidden vPrime = .ok u ∧
+      signPrimary (Zn.znOps N) pk (some u) m2 known vpp einv = .ok (a, q) ∧
+      checkSignature (Zn.znOps N) pk ⟨m2, a, e, vPrime + vpp⟩ (known ++ hidden) = .ok true := by
+  intro known hidden
+  have ho := Zn.znOps_refines_sub hN S
+  obtain ⟨u', a', q', h1, h2, h3⟩ := issued_signature_valid (Zn.encS N S) pk' knownKeys hiddenKeys rf
+    val m2 vPrime vpp e einv hr hinv
+  have r1 := blindU_rel ho hpk hidden vPrime
+  rw [h1] at r1
+  cases hb : blindU (Zn.znOps N) pk hidden vPrime with
+  | ok u =>
+    rw [hb] at r1
+    have hu : Zn.RelS N S u u' := r1
+    have r2 := signPrimary_rel ho hpk (u := some u) (u' := some u') hu m2 known vpp einv
+    rw [h2] at r2
+    cases hsg : signPrimary (Zn.znOps N) pk (some u) m2 known vpp einv with
+    | ok aq =>
+      obtain ⟨a, q⟩ := aq
+      rw [hsg] at r2
+      have haq : Zn.RelS N S a a' ∧ Zn.RelS N S q q' := r2
+      refine ⟨u, a, q, rfl, hsg, ?_⟩
+      rw [checkSignature_rel ho hpk (sig' := ⟨m2, a', e, vPrime + vpp⟩) ⟨rfl, haq.1, rfl, rfl⟩]
+      exact h3
+    | err => rw [hsg] at r2; exact absurd r2 (by simp [ORel])
+    | panic => rw [hsg] at r2; exact absurd r2 (by simp [ORel])
+  | err => rw [hb] at r1; exact absurd r1 (by simp [ORel])
+  | panic => rw [hb] at r1; exact absurd r1 (by simp [ORel])
+
+/-- the holder's verdict on ANY signature (honest or not) whose `A` represents an element of `S`
+is the same in the executable group and in the proof group -/
+theorem holder_signature_verdict_refines (N : ℕ) (hN : 1 < N) (S : AddSubgroup (Zn.U N))
+    (pk : PubKey ℤ) (pk' : PubKey S) (hpk : PKRel (Zn.RelS N S) pk pk')
+    (sig : Signature ℤ) (sig' : Signature S) (hs : SigRel (Zn.RelS N S) sig sig') (vals : Values) :
+    checkSignature (Zn.znOps N) pk sig vals = checkSignature (addOps (Zn.encS N S)) pk' sig' vals :=
+  checkSignature_rel (Zn.znOps_refines_sub hN S) hpk hs vals
+
+end executable
 
 end CL.C04
